@@ -1238,7 +1238,87 @@ def make_cases(t):
         raise core.HarnessError("family %r" % fam)
 
 
+# ---------------------------------------------------------------------------
+# several scorable fields with DIFFERENT lengths in the same document: term
+# statistics of one field must not pick up another field's lengths
+
+XF_LENS = (0, 1, 3, 40)
+
+
+def xfield_case(lens, codecname, blocklimit):
+    """lens: per document (la, lb, lc) token counts of fields fa, fb, fc."""
+    from whoosh import fields
+    from whoosh.filedb.filestore import RamStorage
+    from whoosh.util.numeric import length_to_byte, byte_to_length
+    schema = fields.Schema(fa=fields.KEYWORD(scorable=True), fb=fields.KEYWORD(scorable=True),
+                           fc=fields.KEYWORD(scorable=True))
+    ix = RamStorage().create_index(schema)
+    if codecname == "w3":
+        from whoosh.codec.whoosh3 import W3Codec
+        w = ix.writer(codec=W3Codec(blocklimit=blocklimit))
+    else:
+        w = ix.writer()
+    for row in lens:
+        doc = {}
+        for f, n in zip(("fa", "fb", "fc"), row):
+            if n:
+                # term "x" in every non-empty field, plus a per-field term
+                doc[f] = u" ".join([u"x"] * (n - 1) + [u"y"]) if n > 1 else u"x"
+        w.add_document(**doc)
+    w.commit()
+    res = []
+    with ix.searcher() as s:
+        r = s.reader()
+        for fi, f in enumerate(("fa", "fb", "fc")):
+            for term, has in ((u"x", lambda n: n >= 1), (u"y", lambda n: n > 1)):
+                docs = [d for d, row in enumerate(lens) if has(row[fi])]
+                if not docs:
+                    continue
+                exact = [lens[d][fi] for d in docs]
+                approx = [byte_to_length(length_to_byte(x)) for x in exact]
+                ti = r.term_info(f, term)
+                for name, got, ex, ap in (("min_length", ti.min_length(), min(exact), min(approx)),
+                                          ("max_length", ti.max_length(), max(exact), max(approx))):
+                    if got not in (ex, ap):
+                        res.append(("xfield|term_info.%s" % name,
+                                    "lens %r field %s term %r: %s=%r, documents with the term have lengths %r"
+                                    % (lens, f, term, name, got, exact)))
+                for d in docs:
+                    got = r.doc_field_length(d, f)
+                    if got not in (lens[d][fi], byte_to_length(length_to_byte(lens[d][fi]))):
+                        res.append(("xfield|doc_field_length", "lens %r: doc_field_length(%d, %s)=%r" % (lens, d, f, got)))
+    ix.close()
+    return res
+
+
+def xfield_task(t):
+    import itertools as it
+    nsl, sl = t
+    acc = core.Acc()
+    rows = list(it.product(XF_LENS, repeat=3))
+    i = 0
+    for ndocs in (1, 2):
+        for lens in it.product(rows, repeat=ndocs):
+            i += 1
+            if i % nsl != sl:
+                continue
+            for codecname, bl in (("w3", 1), ("default", None)):
+                acc.count("evaluations")
+                acc.count("xfield_cases")
+                if len(set(x for row in lens for x in row if x)) > 1:
+                    acc.count("distinct_nontrivial")
+                try:
+                    res = xfield_case([list(r) for r in lens], codecname, bl)
+                except Exception as e:
+                    res = [("xfield|exc:%s@%s" % (type(e).__name__, where(e)), "lens %r raised %r" % (lens, e))]
+                for sig, detail in res:
+                    acc.violation(sig, {"xfield": True, "lens": [list(r) for r in lens], "codec": codecname, "blocklimit": bl}, detail)
+    return acc.result()
+
+
 def task(t):
+    if isinstance(t, tuple) and t and t[0] == "xfield":
+        return xfield_task(t[1:])
     acc = core.Acc()
     t0 = time.time()
     c0 = time.process_time()
@@ -1415,7 +1495,7 @@ def run(ctx):
     ctx.extra["boosts"] = alphabet(ctx.seed)[1]
     ctx.extra["w3_configs"] = "blocklimit {1,2,3,128} x compression {0,3} x inlinelimit {1,2} x {compound, loose}"
     ctx.extra["write_paths"] = ["writer", "merge", "fw", "fwp", "pw"]
-    ctx.pmap(task, tasks)
+    ctx.pmap(task, tasks + [("xfield", 16, sl) for sl in range(16)])
     cn = ctx.counters
     if cn.get("multiblock_lists", 0) < 100 or cn.get("multiblock_vectors", 0) < 100:
         raise core.HarnessError("vacuous: multi-block lists %s, multi-block vectors %s"
@@ -1427,6 +1507,9 @@ def run(ctx):
 
 def replay(case):
     core.setup_process(case.get("seed", 0))
+    if case.get("xfield"):
+        res = xfield_case(case["lens"], case["codec"], case["blocklimit"])
+        return {"ok": not res, "what": res}
     diffs, stats = execute(case)
     kinds = list(diffs.order)
     want = case.get("kind")
